@@ -51,8 +51,8 @@ CONFIGS = [
 
 def plan(tier, seed):
     specs = []
-    n = 6000 if tier == "quick" else 220000
-    shards = 8 if tier == "quick" else 16
+    n = 30000 if tier == "quick" else 800000
+    shards = 12 if tier == "quick" else 32
     for _ in range(shards):
         specs.append({"kind": "values", "count": n // shards})
     specs.append({"kind": "families"})
